@@ -38,6 +38,33 @@ def count (m : Marker) (l : List Marker) : Nat := l.count m
 def inside (m o c : Marker) (l : List Marker) : Bool :=
   before o m l && before m c l && noneBetween c o m l
 
+/-- scan for `held`: `d` = number of scopes `a .. r` that are open -/
+def heldGo (a r m : Marker) : Nat → List Marker → Bool
+  | _, [] => true
+  | d, x :: xs =>
+    if x == a then heldGo a r m (d + 1) xs
+    else if x == r then heldGo a r m (d - 1) xs
+    else if x == m then decide (d > 0) && heldGo a r m d xs
+    else heldGo a r m d xs
+
+/-- `m` occurs, and EVERY occurrence of `m` lies inside a scope opened by `a` and closed by `r`
+    (guard scopes: `a` = the lock is taken, `r` = the guard is dropped, as emitted by
+    tools/skeleton.py; `let _ = x.lock();` yields `a, r` back to back).  Order alone
+    (`before a m`) does not imply this. -/
+def held (a r m : Marker) (l : List Marker) : Bool := l.contains m && heldGo a r m 0 l
+
+/-- every occurrence of every marker satisfying `p` lies inside a scope `a .. r` -/
+def heldAll (a r : Marker) (p : Marker → Bool) (l : List Marker) : Bool :=
+  (l.filter p).eraseDups.all (fun m => held a r m l)
+
+/-- the header pinned for block marker `m` (first occurrence), in the split form of skeleton.py -/
+def condOf (m : Marker) (conds : List (Marker × List (List String))) : List (List String) :=
+  (conds.lookup m).getD []
+
+/-- block `m` exists and the conjunct `c` is tested on every `||` alternative of its header -/
+def condHas (m : Marker) (c : String) (conds : List (Marker × List (List String))) : Bool :=
+  !(condOf m conds).isEmpty && (condOf m conds).all (fun conj => conj.contains c)
+
 end Pdb.Ord
 
 namespace Pdb.Conc.Lock
@@ -258,13 +285,21 @@ def sum (l : List Nat) : Nat := l.foldl (· + ·) 0
 /-- The shapes of the current source tree, read off the generated skeletons. -/
 def cfgOfGen (minLog : Nat) (syncData workers : Bool) : Cfg :=
   { minLog := minLog, syncData := syncData, workers := workers,
+    -- the wait for the cleanup worker sits in a loop whose header tests the shutdown flag
     enactChecksShutdown :=
-      Ord.before .whileDirtyOverMax .checkShutdown Order.enactLogs &&
-      Ord.before .checkShutdown .waitCleanupQueue Order.enactLogs,
+      Ord.inside .waitCleanupQueue .whileDirtyOverMax .endWhileDirtyOverMax Order.enactLogs &&
+      Ord.condHas .whileDirtyOverMax "has_cleanup_worker" Order.enactLogs_conds &&
+      Ord.condHas .whileDirtyOverMax "!self.shutdown.load(Ordering::SeqCst)" Order.enactLogs_conds,
     shutdownSignalsCleanupQ := Order.shutdown.contains .signalCleanupQueue,
-    shutdownNotifyLocked := Ord.before .lockLogQueue .notifyLogQueue Order.shutdown,
-    commitChecksErrBeforeWait := Ord.before .checkBgErr .waitQueueFull Order.commitRaw,
-    storeErrNotifyLocked := Ord.before .lockQueue .notifyAllQueueFull Order.storeErr }
+    -- guard SCOPE, not just order: the notify lies between the lock and the drop of its guard
+    shutdownNotifyLocked := Ord.held .lockLogQueue .unlockLogQueue .notifyLogQueue Order.shutdown,
+    -- the queue-full wait is guarded by `bg_err` being empty
+    commitChecksErrBeforeWait :=
+      (Ord.inside .waitQueueFull .ifQueueFull .endIfQueueFull Order.commitRaw &&
+        Ord.condHas .ifQueueFull "self.bg_err.lock().is_none()" Order.commitRaw_conds) ||
+      (Ord.inside .waitQueueFull .whileQueueFull .endWhileQueueFull Order.commitRaw &&
+        Ord.condHas .whileQueueFull "self.bg_err.lock().is_none()" Order.commitRaw_conds),
+    storeErrNotifyLocked := Ord.held .lockQueue .unlockQueue .notifyAllQueueFull Order.storeErr }
 
 def Cfg.patched (c : Cfg) : Bool :=
   c.enactChecksShutdown && c.shutdownSignalsCleanupQ && c.shutdownNotifyLocked &&
